@@ -177,6 +177,9 @@ class USBDeviceHandle(object):
             self._b().fault('claim')
         if self.closed:
             raise USBErrorNoDevice()
+        for h in self._device.handles:
+            if h is not self and not h.closed and interface in h.claimed:
+                raise USBErrorBusy()      # libusb: LIBUSB_ERROR_BUSY if another handle has claimed the interface
         self.claimed.add(interface)
 
     def releaseInterface(self, interface):
@@ -192,6 +195,7 @@ class USBDeviceHandle(object):
         if self._b() is not None:
             self._b().fault('close')
         self.closed = True
+        self.claimed.clear()
 
     def bulkRead(self, endpoint, length, timeout=0):
         CALLS.append(('bulkRead', endpoint, length, timeout))
